@@ -57,7 +57,6 @@ import (
 	"fmt"
 	"time"
 
-	"github.com/ipfs/go-cid"
 	dht "github.com/libp2p/go-libp2p-kad-dht"
 	"github.com/libp2p/go-libp2p-kad-dht/crawler"
 	"github.com/libp2p/go-libp2p-kad-dht/fullrt"
@@ -66,7 +65,6 @@ import (
 	"github.com/libp2p/go-libp2p/core/peer"
 	"github.com/libp2p/go-libp2p/core/protocol"
 	ma "github.com/multiformats/go-multiaddr"
-	mh "github.com/multiformats/go-multihash"
 
 	"verif/sim"
 	"verif/simds"
@@ -86,7 +84,8 @@ func init() {
 			"fault_rpc_error", "fault_invalid_record", "fault_wrong_key_record", "probe_fullrt_search_completed", "probe_fullrt_search_no_value", "probe_fullrt_best_changed",
 			"probe_fullrt_corrective_put_sent", "probe_fullrt_corrective_none_needed", "probe_fullrt_holder_of_best_in_R", "probe_fullrt_get_given_up",
 			"probe_local_value_in_search", "probe_search_via_getvalue", "probe_quorum_not_reached", "probe_caller_released_ctx", "probe_at_return_requests_judged",
-			"probe_put_own_store_judged", "probe_fullrt_put_republish_same_value", "probe_fullrt_put_republish_judged"},
+			"probe_put_own_store_judged", "probe_fullrt_put_republish_same_value", "probe_fullrt_put_republish_judged",
+			"probe_key_identity_hash", "probe_key_hash_not_sha256", "probe_key_cid_v0", "probe_key_codec_not_raw"},
 	})
 }
 
@@ -305,11 +304,13 @@ func runC06FullRT(s *sim.Sim) {
 			w.recipientProbes(msgs)
 			s.State("fullrt put R=%d sent=%d err=%v", len(R0), len(msgs), ob.op.Err != nil)
 		} else {
-			sum, err := mh.Sum([]byte(fmt.Sprintf("content-%d-%d", i, s.Draw("content", 1<<16))), mh.SHA2_256, -1)
-			if err != nil {
-				panic(err)
-			}
-			key := cid.NewCidV1(cid.Raw, sum)
+			content := s.Draw("content", 1<<16)
+			// the form of the key is drawn (c06_keys.go)
+			form := c06DrawKeyForm(s)
+			s.Summary["key-form"] = form.String()
+			s.Tracef("provide key form %s", form)
+			sum := form.sum(fmt.Sprintf("content-%d-%d", i, content))
+			key := form.cid(sum)
 			R0, ok0 := closest(string(sum))
 			ob := w.runOp(fmt.Sprintf("FullRT.Provide#%d", i), string(sum), 0, func(ctx context.Context) (any, error) {
 				return nil, frt.Provide(ctx, key, true)
